@@ -290,7 +290,15 @@ def r17(ctx):
     le = set()
     for s in loop_sites:
         le |= s[3]
-    headers = [bi for bi, c in fv.b.calls() if c.callee and c.callee.name.endswith("Iterator for std::ops::Range<A>>::next")]
+    # the loop that contains the per-HTLC verification (whatever iterator drives it)
+    headers = []
+    for bi, c in fv.b.calls():
+        nm = c.callee.name if c.callee else ""
+        if not (nm.endswith("Iterator>::next") or nm.endswith(">::next")) or c.target is None:
+            continue
+        body_reach = fv.reach(c.target)
+        if bi in body_reach and any(s[0] in body_reach for s in loop_sites):
+            headers.append(bi)
     ctx.ob("R1.7", len(headers) >= 1, f"{b.name}/loop-header", "HTLC loop not found", where=f"{b.file}:{b.line}")
     for h in headers:
         tgt = fv.b.term(h).call.target
@@ -298,6 +306,20 @@ def r17(ctx):
         ctx.ob("R1.7", not cyc, f"{b.name}/iteration-needs-htlc-sig",
                "an iteration of the HTLC loop can complete without a successful HTLC signature check",
                where=f"{b.file}:{fv.b.term(h).line}", sample="loop back-edge dominated by Ok(verify_ecdsa #2)")
+        # the loop visits every HTLC of the recomposed commitment: it ranges over 0..htlcs.len() (a missing signature
+        # then panics on the index), or a length mismatch between HTLCs and supplied signatures is refused first
+        it = render(fv.expr(fv.b.term(h).call.args[0])) if fv.b.term(h).call.args else ""
+        over_all = "Range{start: 0, end: len(" in it and "htlcs(" in it
+        if not over_all:
+            eqs = R.eq_sites(fv, lambda a, c: a.startswith("len(") and c.startswith("len(") and
+                             ("counterparty_htlc_sigs" in a) != ("counterparty_htlc_sigs" in c) and ("htlcs(" in a or "htlcs(" in c))
+            succ_b = [sb for sb, _ in R.success_blocks(fv)]
+            over_all = bool(eqs) and all(dife and not any(sb in fv.reach(v) for sb in succ_b for (_, v) in dife)
+                                         for (_, _, _, dife, _, _) in eqs)
+        ctx.ob("R1.7", over_all, f"{b.name}/every-htlc-visited",
+               f"the HTLC signature loop is driven by `{it[:120]}`: nothing makes it visit every HTLC of the recomposed commitment "
+               f"(with fewer signatures than HTLCs the surplus HTLCs go unverified and the commitment is still accepted)",
+               where=f"{b.file}:{fv.b.term(h).line}", sample="for ndx in 0..htlcs.len()")
     # provenance of operands
     for k, (bi, ln, c, es) in enumerate(per_site):
         msg = fv.expr(c.args[1])
@@ -335,7 +357,11 @@ def r17(ctx):
         msg = fv.expr(c.args[1])
         # same index for htlc and signature
         sig = strip_ref(sig)
-        ctx.ob("R1.7", sig[0] == "index" and render(sig[2]) in render(msg),
+        # (a) sigs[ndx] with the same ndx that selects the HTLC, or (b) the two halves of one zip element
+        rs, rm = render(sig), render(msg)
+        zipped = "Iterator::zip(" in rs and "Iterator::zip(" in rm and rs.split("Iterator::zip(", 1)[1].split(")?", 1)[0] == \
+            rm.split("Iterator::zip(", 1)[1].split(")?", 1)[0]
+        ctx.ob("R1.7", (sig[0] == "index" and render(sig[2]) in render(msg)) or zipped,
                f"{b.name}/htlc-verify/index-agreement",
                "HTLC signature index differs from the HTLC whose transaction is verified",
                where=f"{b.file}:{ln}")
